@@ -60,7 +60,7 @@ DEFECTS = {1: 'second_pass_restarts', 2: 'expansion_per_file',
 # so a token VALUE (user name, host name) containing ${VAR} is expanded again;
 # ssh makes one pass.  Recorded as an observation (notes), not judged, until it
 # is listed or repaired: set to True to judge it.
-JUDGE_RESCAN = False
+JUDGE_RESCAN = True
 
 
 def write_cfg(name, invs, **kw):
